@@ -795,7 +795,8 @@ def _settings_once(n, seed, binary, attempt):
 
 # ---------------------------------------------------------------- a value that cannot be parsed
 
-ERROR_CLASSES = ["env-int", "env-bool", "flag-int", "flag-bool", "flag-unknown", "flag-no-value", "flag-documented-spelling", "help"]
+ERROR_CLASSES = ["env-int", "env-bool", "flag-int", "flag-bool", "flag-unknown", "flag-no-value", "flag-documented-spelling", "help",
+                 "flag-bool-two-words", "stray-word"]
 
 
 def error_cycle(n, seed, binary):
@@ -850,6 +851,24 @@ def error_cycle(n, seed, binary):
         k = rng.choice([k for k in KEYS if k.flag != k.yaml])
         args += ["-" + k.yaml, "1000"]
         must_name, what = ["-" + k.yaml], "-%s 1000 (the documented spelling of -%s)" % (k.yaml, k.flag)
+    elif cls in ("flag-bool-two-words", "stray-word"):
+        # F31: a word that is neither a flag nor the value of one. docs/config.md writes `-key value` for every key; for a boolean
+        # flag package flag never takes the next word, and its first positional argument ends the parsing: what stands behind
+        # it was silently dropped. The collector must refuse such a command line (status 2, a message quoting the word) — it
+        # takes no positional arguments at all. The word stands behind the ports and files of this cycle, a flag follows it
+        # (a collector that starts all the same does so on this cycle's private ports and files).
+        if cls == "flag-bool-two-words":
+            k = rng.choice([k for k in bools if k.role not in ("producer", "rpc")])
+            w = rng.choice(["true", "false", "1", "0", "t", "f", "T", "F", "TRUE", "FALSE", "True", "False"])
+            args += [rng.choice(["-", "--"]) + k.flag, w]
+            what = "-%s %s (a boolean in the documented `-key value` form) followed by another flag" % (k.flag, w)
+        else:
+            w = rng.choice(["stray", "vflow.conf", "7000", "start", "-", "--"])
+            args += [w]
+            what = "the stray word %r followed by another flag" % w
+        tail = ["-%s-workers" % rng.choice(PNAMES), "7"]
+        args += tail
+        must_name = ['"%s"' % (tail[0] if w == "--" else w)]
     else:
         args.append(rng.choice(["-h", "-help", "--help"]))
         want_rc, must_name, what = 0, ["-ipfix-port", "-config"], args[-1]
@@ -904,7 +923,7 @@ def settings_cycles(pid, tier, seed):
         r.oracle_fail.append({"kind": KIND, "seed": seed, "session": ["build"], "verdict": "fail:build vflow binary does not build: " + err[-300:], "impl": ""})
         r.summary = {"built": False}
         return r
-    n, n_err = (8, 8) if tier == "quick" else (400, 80)
+    n, n_err = (8, len(ERROR_CLASSES)) if tier == "quick" else (400, 10 * len(ERROR_CLASSES))
     import concurrent.futures as cf
     agg = {"provided": {s: 0 for s in SRC}, "decided_by": {s: 0 for s in ("cli", "file", "env", "default")}, "config_flag": {}, "stats": {},
            "probes_counted": 0, "cpu_cap_observed": 0}
